@@ -12,6 +12,8 @@ EncodeUnit(u) ==
     ELSE IF u < 2048 THEN <<192 + (u \div 64), 128 + (u % 64)>>
     ELSE IF u < 65536 THEN <<224 + (u \div 4096), 128 + ((u \div 64) % 64), 128 + (u % 64)>>
     ELSE <<240 + (u \div 262144), 128 + ((u \div 4096) % 64), 128 + ((u \div 64) % 64), 128 + (u % 64)>>
-Encode(units) == FlattenSeq([i \in 1..Len(units) |-> EncodeUnit(units[i])])
+EncodeDef(units) == FlattenSeq([i \in 1..Len(units) |-> EncodeUnit(units[i])])
+\* ASCII text is its own encoding (evaluation shortcut for very long inputs: FlattenSeq recurses once per unit)
+Encode(units) == IF \A i \in 1..Len(units) : units[i] \in 0..127 THEN units ELSE EncodeDef(units)
 Ascii(str) == str   \* placeholder: ASCII strings are given as tuples of code points
 ====
